@@ -98,17 +98,64 @@ def np_to_pose12(m):
     return [float(x) for x in np.asarray(m)[:3, :].reshape(-1)]
 
 
-def make_path(mode, poses, stamps=None):
-    """mode 'mat': poses = 12-float rows; mode 'quat': poses = [x y z qw qx qy qz]"""
+FLAVOURS = ["plain", "plain", "alias", "view", "fortran", "readonly", "list"]
+PREREADS = [(), (), ("poses",), ("pos",), ("quat",), ("pos", "quat"), ("pos", "quat", "poses"), ("check",)]
+
+
+def make_path(mode, poses, stamps=None, flavour="plain", preread=()):
+    """mode 'mat': poses = 12-float rows; mode 'quat': poses = [x y z qw qx qy qz].
+    flavour (L3): how the arrays are handed over — 'alias': equal consecutive poses share one ndarray object,
+    'view': every pose matrix / the two arrays are views of one base array, 'fortran': non-contiguous (transposed
+    storage), 'readonly': write flag cleared, 'list': nested Python lists where evo converts itself (quat mode).
+    preread (L4): which cached views are materialised before the object is handed to the code under test."""
     from evo.core.trajectory import PosePath3D, PoseTrajectory3D
     if mode == "mat":
-        kw = {"poses_se3": [pose12_to_np(p) for p in poses]}
+        ms = [pose12_to_np(p) for p in poses]
+        if flavour == "alias":
+            for k in range(1, len(ms)):
+                if poses[k] == poses[k - 1]:
+                    ms[k] = ms[k - 1]
+        elif flavour == "view":
+            base = np.zeros((len(ms), 6, 6))
+            for k, m in enumerate(ms):
+                base[k, 1:5, 1:5] = m
+            ms = [base[k, 1:5, 1:5] for k in range(len(ms))]
+        elif flavour == "fortran":
+            ms = [np.asfortranarray(m) for m in ms]
+        elif flavour == "readonly":
+            for m in ms:
+                m.setflags(write=False)
+        kw = {"poses_se3": ms}
     else:
         a = np.array(poses, dtype=float).reshape(-1, 7)
-        kw = {"positions_xyz": a[:, :3].copy(), "orientations_quat_wxyz": a[:, 3:].copy()}
-    if stamps is None:
-        return PosePath3D(**kw)
-    return PoseTrajectory3D(timestamps=np.array(stamps, dtype=float), **kw)
+        pos, quat = a[:, :3].copy(), a[:, 3:].copy()
+        if flavour == "view":
+            pos, quat = a[:, :3], a[:, 3:]
+        elif flavour == "fortran":
+            pos, quat = np.asfortranarray(pos), np.asfortranarray(quat)
+        elif flavour == "readonly":
+            pos.setflags(write=False)
+            quat.setflags(write=False)
+        elif flavour == "list":
+            pos, quat = pos.tolist(), quat.tolist()
+        kw = {"positions_xyz": pos, "orientations_quat_wxyz": quat}
+    tr = PosePath3D(**kw) if stamps is None else PoseTrajectory3D(timestamps=np.array(stamps, dtype=float), **kw)
+    for what in preread:
+        if what == "poses":
+            tr.poses_se3
+        elif what == "pos":
+            tr.positions_xyz
+        elif what == "quat":
+            tr.orientations_quat_wxyz
+        elif what == "check":
+            tr.check()
+    return tr
+
+
+def twin_poses(mode, poses):
+    """the SE(3) matrices the metric code reads, taken from an identically built twin (the object under test is
+    not read by the harness)"""
+    return seen_poses(make_path(mode, poses))
 
 
 def seen_poses(path):
